@@ -68,7 +68,8 @@ def strategy_(draw, tier):
             nt = draw(st.sampled_from(["int8", "int16", "int32", "float32", "float64"]))
         items.append(dict(kind="sds", w=w, nt=nt, dims=dims, name="ds%d" % i,
                           strs=draw(st.booleans()), fill=draw(st.booleans()), rng=draw(st.booleans()),
-                          scale=draw(st.booleans()), slabs=draw(st.integers(1, 3))))
+                          scale=draw(st.booleans()), slabs=draw(st.integers(1, 3)),
+                          unlim=(w == "sd" and draw(st.integers(0, 2)) == 0)))
     for i in range(draw(st.integers(0, 2))):
         items.append(dict(kind="ri8", w=draw(st.sampled_from(["dfr8", "dfr8", "gr"])), x=draw(st.integers(1, 9)),
                           y=draw(st.integers(1, 9)), pal=draw(st.booleans()),
@@ -150,7 +151,11 @@ def write_item(it, k, d, model):
                 p.call("i", "DFSDendslab")
         elif it["w"] == "sd":
             p.call("i", "SDstart", F, 3 if model["created"] else 4, bind="sd")
-            p.call("i", "SDcreate", V("sd"), it["name"], code, len(dims), i32s(*dims), bind="s")
+            cdims = list(dims)
+            if it.get("unlim"):
+                cdims[0] = 0            # SD_UNLIMITED: every record variable has its own record count in SD
+                it["scale"] = False
+            p.call("i", "SDcreate", V("sd"), it["name"], code, len(dims), i32s(*cdims), bind="s")
             if it["strs"]:
                 p.call("i", "SDsetdatastrs", V("s"), "lab_%d" % k, "unit_%d" % k, "F%d.2" % k, None)
             if it["fill"]:
@@ -762,6 +767,8 @@ def check(case, d, labels, excluded, known_keys):
             e = ln["e"]
             dl = [struct.unpack("=q", qq.res[l].bufs[1])[0] for l in ln["dims"]]
             sz = {1: 1, 2: 1, 3: 2, 4: 4, 5: 4, 6: 8}.get(e["type"])
+            if it.get("unlim"):
+                dl[0] = it["dims"][0]      # netCDF semantics: one record dimension shared by all record variables
             if dl != it["dims"] or sz != np.dtype(NTS[it["nt"]][1]).itemsize:
                 raise Fail("the netCDF-style interface presents other dimensions / type than %s wrote" % it["w"],
                            got=dict(dims=dl, type=e["type"]), written=dict(dims=it["dims"], nt=it["nt"]), program=prog)
